@@ -203,7 +203,11 @@ task_shared.contract_fn = "curves.Curve.clean"
 
 
 def tasks(tier, seed):
-    ts = []
+    from ..pyvc.driver import verify
+    from ..contracts import curvesv
+    # shape level, all curves: knot_clean / degree_clean / clean terminate (variants npts + degree, degree), keep the representation invariant, never grow the
+    # curve, and raise only AssertionError for a negative tolerance with the curve unchanged
+    ts = [(verify, (c, m, q, v)) for c, m, q, v in curvesv.ALL if q in ("Curve.knot_clean", "Curve.degree_clean", "Curve.clean")]
     for p, cells in shapes(tier):
         for variant in ((0, 1) if tier == "quick" else (0, 1, 2)):
             ts.append((task_clean, (p, cells, variant, tier)))
@@ -252,7 +256,7 @@ def replay(o):
 
 INFO = dict(
     assumptions=A.S_COMMON + [A.A4, "A9 the minimal curve is generic with margin: a removal whose error form is a non-zero positive semidefinite quadratic form of the "
-                                    "control points is refused (the branch is fixed by this precondition, not explored both ways)"],
+                                    "control points is refused (the branch is fixed by this precondition, not explored both ways)", A.A11],
     trusted_base=A.TRUSTED, min_obligations=60, level="other",
     explanation="C14: knot_clean / degree_clean / clean on P = T_hist Q, T_hist the spec matrix of a refinement history (knot insertions, degree elevations) of a "
                 "curve with symbolic generic control points Q on a concrete minimal knot vector: the result is exactly (U_Q, Q) for every call order, and a "
